@@ -6,6 +6,7 @@ import fileinput
 import json
 import logging
 import pathlib
+import string
 
 import click
 import peewee as pw
@@ -826,11 +827,8 @@ def validate_md5(md5: str | None) -> None:
     if md5 is None:
         return
 
-    # The hash must be a 128-byte number specified as 32 hex digits
-    if len(md5) != 32:
-        raise click.ClickException(f"invalid hash: {md5}.  Expected 32 hex digits.")
-
-    try:
-        int(md5, base=16)
-    except ValueError:
+    # The hash must be a 128-bit number specified as exactly 32 hex digits.
+    # (int(md5, base=16) is too lenient for this: it also accepts a "0x"
+    # prefix, a sign, underscores and surrounding whitespace.)
+    if len(md5) != 32 or any(c not in string.hexdigits for c in md5):
         raise click.ClickException(f"invalid hash: {md5}.  Expected 32 hex digits.")
